@@ -58,7 +58,44 @@ def strategy(tier):
             'post': programs.txn_strategy(victim_allow - {'stale'}),
         })
     raw = st.sampled_from(['fs', 'fs', 'fs', 'mapping', 'demo', 'demo-fs']).flatmap(build)
-    return st.integers(0, 99).flatmap(lambda r: conn_strategy(tier) if r < 20 else raw)
+    return st.integers(0, 99).flatmap(lambda r: conn_strategy(tier) if r < 20 else blob_strategy() if r < 28 else raw)
+
+
+def blob_strategy():
+    """blob storages (anchor src/ZODB/blob.py): a raw transaction that has stored a blob sees calls made with another
+    transaction object, then finishes or is aborted before / after its vote; driven through C13's blob world"""
+    from checks import c13_blobs
+    d = st.integers(0, len(c13_blobs.DATA) - 1)
+    op = st.one_of(st.tuples(st.just('foreign'), st.integers(0, 5), d, st.sampled_from(['finish', 'abort', 'abort', 'vote-abort', 'vote-abort'])),
+                   st.tuples(st.just('write'), st.integers(0, 1), st.sampled_from(['w', 'a']), d), st.tuples(st.just('commit')),
+                   st.tuples(st.just('abort')), st.tuples(st.just('observe'), st.booleans())).map(list)
+    return st.fixed_dictionaries({'mode': st.just('blob'), 'kind': st.sampled_from(['bmap', 'bmap', 'fs']),
+                                  'ops': st.lists(op, min_size=2, max_size=8)})
+
+
+def execute_blob(case):
+    from checks import c13_blobs
+    out = Outcome()
+    out.evals = 0
+    clock.install()
+    locks.install()
+    clock.reset()
+    d = newdir()
+    w = c13_blobs.BlobWorld(case['kind'], d, out, prop=PROPERTY)
+    try:
+        for op in (['create', 0, 2], ['create', 1, 3], ['commit']):
+            w.step(op)
+        for op in case['ops']:
+            w.step(op)
+            clock.CLOCK.advance(0.25)
+            out.evals += 1
+            if out.failures:
+                break
+    finally:
+        w.close()
+    out.label('blob-storage', 'blob-' + case['kind'], *['blob-' + x for x in w.labels])
+    out.nontrivial = 'foreign-transaction-calls-then-abort' in w.labels
+    return out
 
 
 def conn_strategy(tier):
@@ -227,6 +264,8 @@ def execute(case):
 def _execute(case):
     if case.get('mode') == 'conn':
         return execute_conn(case)
+    if case.get('mode') == 'blob':
+        return execute_blob(case)
     out = Outcome()
     out.evals = 0
     clock.install()
